@@ -81,6 +81,9 @@ func GenValue(r *rand.Rand, depth int) *Doc {
 		if r.Intn(6) == 0 {
 			n = 0
 		}
+		if r.Intn(14) == 0 {
+			n = 11 + r.Intn(4) // long enough for "10" < "2" to matter
+		}
 		d := &Doc{K: DList}
 		homo := r.Intn(3) > 0
 		var first *Doc
